@@ -332,22 +332,39 @@ func runC18(p *core.Program, r *core.Report) {
 					continue
 				}
 				cd, ok := path.CondOf(iff)
-				if !ok || cd.Neg {
+				if !ok {
 					continue
 				}
+				// the edge on which the loop goes on, and the relation that holds on it
+				// (for i < n {..}  and  for { if i >= n { break } .. }  are the same test)
+				stay := -1
+				switch {
+				case loop[b.Succs[0]] && !loop[b.Succs[1]]:
+					stay = 0
+				case loop[b.Succs[1]] && !loop[b.Succs[0]]:
+					stay = 1
+				}
+				if stay < 0 {
+					continue
+				}
+				truth := stay == 0
+				if cd.Neg {
+					truth = !truth
+				}
+				rel := normCmp(cd.Op, truth)
 				var phi *ssa.Phi
 				var wantInit int64
 				switch {
-				case cd.Op == token.LSS && cd.Y == ssa.Value(nPar):
+				case rel == "<" && cd.Y == ssa.Value(nPar):
 					phi, _ = cd.X.(*ssa.Phi)
 					wantInit = 0
-				case cd.Op == token.GTR && cd.X == ssa.Value(nPar):
+				case rel == ">" && cd.X == ssa.Value(nPar):
 					phi, _ = cd.Y.(*ssa.Phi)
 					wantInit = 0
-				case cd.Op == token.LEQ && cd.Y == ssa.Value(nPar):
+				case rel == "<=" && cd.Y == ssa.Value(nPar):
 					phi, _ = cd.X.(*ssa.Phi)
 					wantInit = 1
-				case cd.Op == token.GEQ && cd.X == ssa.Value(nPar):
+				case rel == ">=" && cd.X == ssa.Value(nPar):
 					phi, _ = cd.Y.(*ssa.Phi)
 					wantInit = 1
 				}
@@ -381,8 +398,8 @@ func runC18(p *core.Program, r *core.Report) {
 					why = "the loop counter is not initialised to a constant and incremented by one on the only back edge"
 					continue
 				}
-				// the stay edge (true edge) must dominate the call; the other edge must leave the loop
-				if path.EdgeDominates(b, 0, call.Block()) && !loop[b.Succs[1]] {
+				// the stay edge must dominate the call; the other edge leaves the loop
+				if path.EdgeDominates(b, stay, call.Block()) {
 					ind = phi
 					okLoop = true
 				}
